@@ -133,6 +133,14 @@ static void scan_value(const MValue &v, Causes &c, bool nested) {
         case CIF_TABLE_KIND: c.composite = true; for (auto &e : v.entries) { if (!key_certainly_presentable(e.first)) c.bad_key = true; for (char16_t ch : e.first) if (ch > 0x7e || (ch < 0x20 && ch != '\n' && ch != '\t')) c.non11 = true; scan_value(e.second, c, true); } break;
         case CIF_CHAR_KIND: case CIF_NUMB_KIND:
             if (v.text.find(U("\n;")) != ustr::npos) c.nl_semi = true;
+            // a leading semicolon in a value that must be folded needs the prefix protocol, which CIF 1.1 output refuses like "\n;"
+            // (conservative approximation of the writer's fold decision: over-long first / any line, or first line ending in a backslash)
+            if (!v.text.empty() && v.text[0] == u';') {
+                size_t e = v.text.find(u'\n'); ustr first = e == ustr::npos ? v.text : v.text.substr(0, e);
+                size_t maxl = 0, cur = 0; for (char16_t ch : v.text) { if (ch == u'\n') { maxl = std::max(maxl, cur); cur = 0; } else ++cur; } maxl = std::max(maxl, cur);
+                size_t t = first.size(); while (t > 0 && (first[t - 1] == u' ' || first[t - 1] == u'\t')) --t;
+                if (first.size() >= 2040 || maxl > 2040 || (t > 0 && first[t - 1] == u'\\')) c.nl_semi = true;
+            }
             for (char16_t ch : v.text) if (ch > 0x7e || (ch < 0x20 && ch != '\n' && ch != '\t')) c.non11 = true;
             break;
         default: break;
